@@ -80,12 +80,19 @@ Section Linqset.
     | Some k => l_unlink k st
     end.
 
-  (* linkseq.__delitem__ (slice): the links selected in the ORIGINAL chain are unlinked one by one *)
-  Definition l_unlink_value (v : V) (st : lstate) : res lstate :=
-    match index_of v (l_chain st) with Some k => l_unlink k st | None => (st, Some EKey) end.
+  (* linkseq.__delitem__ (slice): the links at the selected positions of the ORIGINAL chain are
+     unlinked one after the other (an unlinked link keeps its own pointers, so the walk goes on);
+     the net effect on the three parts, given that every `del table[link.value]` finds its key *)
   Definition l_delslice (idxs : list nat) (st : lstate) : res lstate :=
     if negb (valid_idxs (l_len st) idxs) then (st, Some EIndex) else
-    bulk l_unlink_value (values_at idxs (l_chain st)) st.
+    let values := values_at idxs (l_chain st) in
+    if negb (forallb (fun v => mem v (l_table st)) values) then
+      (* some key is missing: KeyError part-way (only from a state that is already out of step) *)
+      ({| l_chain := remove_idxs idxs (l_chain st); l_table := set_diff values (l_table st);
+          l_len := l_len st - length idxs |}, Some EKey)
+    else
+      ({| l_chain := remove_idxs idxs (l_chain st); l_table := set_diff values (l_table st);
+          l_len := l_len st - length idxs |}, None).
 
   (* linkseq.__setitem__ (index) *)
   Definition l_setidx (i : Z) (v : V) (st : lstate) : res lstate :=
